@@ -30,3 +30,9 @@ bool ref_authentic(const bytes &file, const bytes &key);
 
 // offsets at which `a` and `b` differ (for equal lengths), or empty + differ_len
 std::vector<size_t> diff_offsets(const bytes &a, const bytes &b);
+
+// the C11 oracle for one input (shared by the rapidcheck property and the libFuzzer target)
+std::string c11_judge(const bytes &file, const bytes &key, int T, const DV &r);
+
+// key of the seed-corpus files of the C11 libFuzzer target
+static const uint8_t FUZZ_KEYA[16] = {0x10, 0x21, 0x32, 0x43, 0x54, 0x65, 0x76, 0x87, 0x98, 0xa9, 0xba, 0xcb, 0xdc, 0xed, 0xfe, 0x0f};
